@@ -171,6 +171,29 @@ theorem filePart_consume (c : ClientCfg) (f : FileUp) (h : NoStream f) :
   | path cc => rfl
   | seeker cc b => simp [filePart, fileContent, FileSrc.consume, R, Variant.repaired]
 
+theorem not_closed_of_noStream (f : FileUp) (h : NoStream f) : f.closed = false := by
+  obtain ⟨p, n, ct, src⟩ := f
+  cases src with
+  | closer cc b => exact absurd rfl (h.2 cc b)
+  | _ => rfl
+
+theorem fileParts_eq_map (v : Variant) (c : ClientCfg) (files : List FileUp) (h : ∀ f ∈ files, NoStream f) :
+    fileParts v c files = files.map (filePart v c) := by
+  unfold fileParts
+  congr 1
+  apply List.filter_eq_self.mpr
+  intro f hf
+  simp [not_closed_of_noStream f (h f hf)]
+
+theorem noStream_consume (f : FileUp) (h : NoStream f) : NoStream { f with src := f.src.consume } := by
+  obtain ⟨p, n, ct, src⟩ := f
+  cases src with
+  | stream cc b => exact absurd rfl (h.1 cc b)
+  | closer cc b => exact absurd rfl (h.2 cc b)
+  | bytes cc => constructor <;> intro x y hh <;> simp [FileSrc.consume] at hh
+  | path cc => constructor <;> intro x y hh <;> simp [FileSrc.consume] at hh
+  | seeker cc b => constructor <;> intro x y hh <;> simp [FileSrc.consume] at hh
+
 theorem noStream_of_replayable (st : ReqState) (h : unreplayable R st = false) :
     ∀ f ∈ st.files, NoStream f := by
   intro f hf
@@ -187,11 +210,13 @@ theorem notReader_of_replayable (st : ReqState) (h : unreplayable R st = false) 
   intro b c hb
   simp [unreplayable, hb] at h
 
-theorem parseBody_fix (c : ClientCfg) (j k : Nat) (st : ReqState) (h0 : Multi)
+theorem parseBody_fix (c : ClientCfg) (hx : c.isXML c.jsonCT = false) (j k : Nat) (st : ReqState) (h0 : Multi)
     (hh : st.headers = mergeHeaders c.headers h0) (hr : unreplayable R st = false) :
     mergeHeaders c.headers (parseBody R c j st).1.headers = (parseBody R c j st).1.headers ∧
     parseBody R c (k + 1) (parseBody R c j st).1 = parseBody R c j st ∧
-    (parseBody R c j st).1.method = st.method ∧ (parseBody R c j st).1.url = st.url ∧
+    (parseBody R c j st).1.method = st.method ∧
+    ((parseBody R c j st).1.urlHead = st.urlHead ∧ (parseBody R c j st).1.path = st.path ∧
+      (parseBody R c j st).1.rawQuery = st.rawQuery ∧ (parseBody R c j st).1.pathParams = st.pathParams) ∧
     (parseBody R c j st).1.query = st.query ∧ (parseBody R c j st).1.cookies = st.cookies := by
   have hfiles := noStream_of_replayable st hr
   have hbody := notReader_of_replayable st hr
@@ -215,6 +240,13 @@ theorem parseBody_fix (c : ClientCfg) (j k : Nat) (st : ReqState) (h0 : Multi)
         intro f _
         simp [consume_idem]
       · congr 1
+        have e1 := fileParts_eq_map R c st.files hfiles
+        have e2 := fileParts_eq_map R c (st.files.map fun f => { f with src := f.src.consume }) (by
+          intro f hf
+          obtain ⟨g, hg, rfl⟩ := List.mem_map.mp hf
+          exact noStream_consume g (hfiles g hg))
+        simp only [R, Variant.repaired] at e1 e2
+        rw [e1, e2]
         simp only [List.map_map]
         apply List.map_congr_left
         intro f hf
@@ -229,11 +261,11 @@ theorem parseBody_fix (c : ClientCfg) (j k : Nat) (st : ReqState) (h0 : Multi)
           | none => simp [hp, hm, hf, ho, hb, hmi]
           | user b => simp [hp, hm, hf, ho, hb, hmi]
           | reader b cns => exact absurd hb (hbody b cns)
-          | marshal js =>
+          | marshal js xs =>
             by_cases hct : first st.headers c.ctKey = []
             · by_cases hj : c.jsonCT = []
               · simp [hp, hm, hf, ho, hb, hct, hmp, first_put_self, hj, put_put]
-              · simp [hp, hm, hf, ho, hb, hct, hmp, first_put_self, hj]
+              · simp [hp, hm, hf, ho, hb, hct, hmp, first_put_self, hj, hx]
             · simp [hp, hm, hf, ho, hb, hct, hmi]
           | bytes b =>
             by_cases hct : first st.headers c.ctKey = []
@@ -251,7 +283,8 @@ def pre (c : ClientCfg) (j : Nat) (st : ReqState) : ReqState :=
 
 theorem mw_eq (c : ClientCfg) (j : Nat) (st : ReqState) :
     mw R c j st = ((parseBody R c j (pre c j st)).1,
-      ⟨st.method, st.url, mergeQuery c.query st.query, (parseBody R c j (pre c j st)).1.headers,
+      ⟨st.method, urlOf c st, st.rawQuery.map (fun p => (p.1, [p.2])) ++ mergeQuery c.query st.query,
+        (parseBody R c j (pre c j st)).1.headers,
         (parseBody R c j (pre c j st)).1.cookies, (parseBody R c j (pre c j st)).2⟩) := rfl
 
 theorem pre_fix (c : ClientCfg) (k : Nat) (s : ReqState)
@@ -262,17 +295,23 @@ theorem pre_fix (c : ClientCfg) (k : Nat) (s : ReqState)
   rw [h, hck]
 
 /-- One application of the request middleware chain, then any later one: same state, same wire
-request. -/
-theorem mw_fix (c : ClientCfg) (j k : Nat) (st : ReqState) (hr : unreplayable R st = false) :
+request.  (`hx`: the JSON content type the middleware itself stores is not an XML type — the
+law `util.IsXMLType` is instantiated with.) -/
+theorem mw_fix (c : ClientCfg) (hx : c.isXML c.jsonCT = false) (j k : Nat) (st : ReqState)
+    (hr : unreplayable R st = false) :
     mw R c (k + 1) (mw R c j st).1 = mw R c j st := by
   have hun : unreplayable R (pre c j st) = false := by
     simpa [unreplayable, pre] using hr
-  obtain ⟨h1, h2, h3, h4, h5, h6⟩ := parseBody_fix c j k (pre c j st) st.headers rfl hun
+  obtain ⟨h1, h2, h3, ⟨h4a, h4b, h4c, h4d⟩, h5, h6⟩ := parseBody_fix c hx j k (pre c j st) st.headers rfl hun
   have hpre : pre c (k + 1) (parseBody R c j (pre c j st)).1 = (parseBody R c j (pre c j st)).1 :=
     pre_fix c k _ h1
+  have hurl : urlOf c (parseBody R c j (pre c j st)).1 = urlOf c st := by
+    unfold urlOf
+    rw [h4a, h4b, h4d]
+    rfl
   rw [mw_eq c j st]
   simp only
-  rw [mw_eq c (k + 1), hpre, h2, h3, h4, h5]
+  rw [mw_eq c (k + 1), hpre, h2, h3, hurl, h4c, h5]
   rfl
 
 end Req.Lemmas.C10Attempt
